@@ -512,3 +512,28 @@ def case_flatten_zero():
 
 
 CASES["flatten_zero"] = case_flatten_zero
+
+
+def case_expand_unknown_dims():
+    """Add(Expand(x[?], s), y[1]) with the Expand output annotated [?]: exported rule set expand_before_binary_op_rules."""
+    import onnx_ir as ir
+    from onnxscript.rewriter.rules.common import _remove_expand_before_binary_op as R
+    bad = 0
+    for annotate in ("expand output", "binary output"):
+        vinfo = [vi("e", TensorProto.FLOAT, [None])] if annotate == "expand output" else []
+        out = vi("z", TensorProto.FLOAT, [None] if annotate == "binary output" else None)
+        g = helper.make_graph([helper.make_node("Expand", ["x", "s"], ["e"]), helper.make_node("Add", ["e", "y"], ["z"])], "g",
+                              [vi("x", TensorProto.FLOAT, [None]), vi("s", TensorProto.INT64, [1]), vi("y", TensorProto.FLOAT, [1])], [out], value_info=vinfo)
+        m = helper.make_model(g, opset_imports=[helper.make_opsetid("", 18)], ir_version=9)
+        feeds = {"x": np.ones((1,), np.float32), "s": np.array([5], np.int64), "y": np.ones((1,), np.float32)}
+        a = run(m, feeds)[0]
+        mm = ir.serde.deserialize_model(m)
+        n = R.expand_before_binary_op_rules.apply_to_model(mm)
+        b = run(ir.serde.serialize_model(mm), feeds)[0]
+        if np.asarray(a).shape != np.asarray(b).shape:
+            print(f"Add(Expand(x[?], s), y[1]) with only the {annotate} annotated [?]: rule applied {n}x; x of shape (1,), s=[5]: original shape {np.asarray(a).shape}, rewritten {np.asarray(b).shape}")
+            bad += 1
+    return bad
+
+
+CASES["expand_unknown_dims"] = case_expand_unknown_dims
